@@ -44,12 +44,21 @@ fn op_stream(line: &str, args: &[SExp]) -> CaseResult {
     };
     let (listing, _) = unbuild(req.header(), req.attributes(), true);
     let header_bytes = req.to_bytes();
+    let mut script_parked = None;
     match kind.as_str() {
         "none" => {}
         "sync" => *req.payload_mut() = IppPayload::new(Script::new(evs.clone(), false)),
-        "async" => *req.payload_mut() = IppPayload::new_async(Script::new(evs.clone(), false)),
+        // read through the async interface, an async payload source is also run with wake-ups that only the
+        // executor delivers (deferred): the stream must suspend and resume, not wait inside poll_read
+        "async" => {
+            let script = Script::new(evs.clone(), cons == "aread" && evs.len() % 3 == 1);
+            script_parked = Some(script.parked.clone());
+            *req.payload_mut() = IppPayload::new_async(script);
+        }
         _ => return badarg(line, "kind"),
     }
+    // …and under the executor of the `futures` crate instead of the harness's own
+    let futures_exec = cons == "aread" && kind == "async" && evs.len() % 3 == 2;
     let eff = format!("stream {} {} {} (pay{}{}) (sizes{}{})", kind, cons, show_msg(&listing),
         if evs.is_empty() { "" } else { " " }, show_events(&evs),
         if sizes.is_empty() { "" } else { " " }, sizes.iter().map(|n| n.to_string()).collect::<Vec<_>>().join(" "));
@@ -79,7 +88,7 @@ fn op_stream(line: &str, args: &[SExp]) -> CaseResult {
             }
         }
         "aread" => {
-            let parked = std::sync::Arc::new(std::sync::Mutex::new(vec![]));
+            let parked = script_parked.clone().unwrap_or_else(|| std::sync::Arc::new(std::sync::Mutex::new(vec![])));
             let sizes2 = sizes.clone();
             let fut = async move {
                 let mut rd = Box::pin(req.into_async_read());
@@ -99,12 +108,18 @@ fn op_stream(line: &str, args: &[SExp]) -> CaseResult {
                     }
                 }
             };
-            match run(fut, &parked, 10_000_000) {
-                Ok((o, e)) => {
-                    out = o;
-                    ending = e;
+            if futures_exec {
+                let (o, e) = futures_executor::block_on(fut);
+                out = o;
+                ending = e;
+            } else {
+                match run(fut, &parked, 10_000_000) {
+                    Ok((o, e)) => {
+                        out = o;
+                        ending = e;
+                    }
+                    Err(_) => hang = Some("the stream suspended without a wake-up".to_string()),
                 }
-                Err(_) => hang = Some("the stream suspended without a wake-up".to_string()),
             }
         }
         _ => return badarg(line, "consumer"),
